@@ -31,10 +31,29 @@ ASSUMPTIONS = {
 }
 
 
-LEAN_NAMES = {"cnt_store": "cnt_store", "cnt_const": "cnt_const", "cnt_range": "cnt_range", "cnt_pos": "cnt_pos", "cnt_all": "cnt_all / cnt_none",
-              "cnt_congr": "cnt_congr", "sum_store": "sum_store", "sum_const": "sum_const'", "sum_le_quota": "sum_le_quota",
-              "sum_ge_quota": "sum_ge_quota", "sum_eq_quota": "sum_eq_quota", "inj_surj": "inj_surj", "psum_empty": "psum_empty",
-              "psum_step": "psum_step", "psum_split": "psum_split", "psum_congr": "psum_congr", "weighted_variance": "weighted_variance", "row_mean_bounds": "mean_bounds"}
+_CNT = "lemmas/Counting.lean"
+_SUM = "lemmas/Sums.lean"
+# lemma schema (text before the first ':' of the name recorded by the engine) -> (Lean file, theorem of namespace Pyvc)
+LEAN_NAMES = {"cnt_store": (_CNT, "cnt_store"), "cnt_const": (_CNT, "cnt_const"), "cnt_range": (_CNT, "cnt_range"), "cnt_pos": (_CNT, "cnt_pos"),
+              "cnt_all": (_CNT, "cnt_all / cnt_none"), "cnt_congr": (_CNT, "cnt_congr"), "sum_store": (_CNT, "sum_store"),
+              "sum_const": (_CNT, "sum_const'"), "sum_le_quota": (_CNT, "sum_le_quota"), "sum_ge_quota": (_CNT, "sum_ge_quota"),
+              "sum_eq_quota": (_CNT, "sum_eq_quota"), "inj_surj": (_CNT, "inj_surj"), "psum_empty": (_CNT, "psum_empty"),
+              "psum_step": (_CNT, "psum_step"), "psum_split": (_CNT, "psum_split"), "psum_congr": (_CNT, "psum_congr"),
+              "weighted_variance": (_CNT, "weighted_variance"), "row_mean_bounds": (_CNT, "mean_bounds"),
+              "sum_empty": (_SUM, "sum_empty"), "sum_nonneg": (_SUM, "sum_nonneg"), "sum_nonpos": (_SUM, "sum_nonpos"),
+              "sum_congr": (_SUM, "sum_congr"), "sum_scale": (_SUM, "sum_scale"), "sum_le": (_SUM, "sum_le"), "sum_bounds": (_SUM, "sum_bounds"),
+              "exp_log_inverse": (_SUM, "exp_log_inverse"), "sqrt maps [0,1] into [0,1]": (_SUM, "sqrt_unit"), "mask_rank": (_SUM, "mask_rank")}
+
+
+def lean_note(lemma, lean_results):
+    """suffix of a 'lemma schema' line of the trusted base: which Lean theorem states it, if its file was accepted in this run"""
+    ent = LEAN_NAMES.get(lemma.split(":")[0].strip())
+    if ent is None:
+        return ""
+    ok = [r for r in lean_results if r["file"] == ent[0] and r["accepted"]]
+    if not ok:
+        return ""
+    return " (statement machine-checked: Pyvc.%s in %s, Lean 4 + Mathlib; the instantiation of the schema by pyvc is trusted)" % (ent[1], ent[0])
 
 
 def load_known():
@@ -246,8 +265,7 @@ def run_check(prop, tier, seed, repo_root, write_ledger, t0):
             prop, tier, repo_root, "z3 5.1 CLI per obligation, cvc5 1.0.3 for string queries left unknown"),
         trusted_base=["pyvc engine (this repository, differential self-test in setup_cmd)", "z3 5.1.0", "cvc5 1.0.3"]
         + ["assumed contract: " + e for e in externs]
-        + ["lemma schema: " + l + (" (statement machine-checked: Pyvc.%s in lemmas/Counting.lean, Lean 4 + Mathlib; the instantiation of the "
-                                   "schema by pyvc is trusted)" % LEAN_NAMES[l] if l in LEAN_NAMES and lean_results and all(r["accepted"] for r in lean_results) else "")
+        + ["lemma schema: " + l + lean_note(l, lean_results)
            for l in lemmas]
         + meta.get("trusted", []),
         obligation_ids=len([1 for v in ids.values() if not v["canary"]]),
